@@ -21,7 +21,7 @@ ASSUMPTIONS = ["System P is proved for Z, W, lex in both modes (C09_systemP), fo
 RANKED = ("system-z", "lex_inf")
 
 
-def instances(rng, case_conds, n, hints=()):
+def instances(rng, case_conds, n, hints=(), hintq=()):
     """returns (queries list of (cons, ante), instances list of dict(name, prem=[(qi, want)], concl=qi, guard=None|formula))"""
     qs = []
     idx = {}
@@ -46,6 +46,42 @@ def instances(rng, case_conds, n, hints=()):
             return c[1] if rng.random() < 0.6 else c[0]
         return core.gen_formula(rng, n, 2, 0.03)
 
+    # instances built from the structured queries of the case's generator (antecedents that are disjunctions of worlds): Or over the
+    # two halves of the antecedent, cautious monotony / Cut / And between queries
+    hq = list(hintq)[:5]
+    for j, (C, A) in enumerate(hq):
+        if isinstance(A, tuple) and A[0] == "|":
+            A1, A2 = A[1], A[2]
+            inst.append({"name": "OR", "prem": [(q(C, A1), True), (q(C, A2), True)], "concl": q(C, A)})
+            inst.append({"name": "CM", "prem": [(q(C, A), True), (q(A2, A), True)], "concl": q(C, ("&", A, A2))})
+            inst.append({"name": "CUT", "prem": [(q(A2, A), True), (q(C, ("&", A, A2)), True)], "concl": q(C, A)})
+            inst.append({"name": "RM", "prem": [(q(C, A), True), (q(("!", A2), A), False)], "concl": q(C, ("&", A, A2)), "ranked": True})
+        # the antecedent as a list of disjuncts (worlds): Cut / cautious monotony with "not this world", Or over mixed halves
+        ds = []
+        stack = [A]
+        while stack:
+            x = stack.pop()
+            if isinstance(x, tuple) and x[0] == "|":
+                stack += [x[2], x[1]]
+            else:
+                ds.append(x)
+        if 2 <= len(ds) <= 5:
+            for d in ds[:3]:
+                nd = ("!", d)
+                inst.append({"name": "CUT", "prem": [(q(nd, A), True), (q(C, ("&", A, nd)), True)], "concl": q(C, A)})
+                inst.append({"name": "CM", "prem": [(q(C, A), True), (q(nd, A), True)], "concl": q(C, ("&", A, nd))})
+            if len(ds) >= 3:
+                h1 = ("|", ds[0], ds[-1])
+                h2 = ds[1]
+                for d in ds[2:]:
+                    h2 = ("|", h2, d)
+                inst.append({"name": "OR", "prem": [(q(C, h1), True), (q(C, h2), True)], "concl": q(C, ("|", h1, h2))})
+        inst.append({"name": "RW", "prem": [(q(C, A), True)], "concl": q(("|", C, ("!", A)), A)})
+        inst.append({"name": "LLE", "prem": [(q(C, A), True)], "concl": q(C, ("!", ("!", A)))})
+        if j + 1 < len(hq):
+            C2, A_2 = hq[j + 1]
+            inst.append({"name": "OR", "prem": [(q(C, A), True), (q(C, A_2), True)], "concl": q(C, ("|", A, A_2))})
+            inst.append({"name": "AND", "prem": [(q(C, A), True), (q(C2, A), True)], "concl": q(("&", C, C2), A)})
     for _ in range(6):
         A, B, C = pick(), pick(), pick()
         if case_conds and rng.random() < 0.5:
@@ -154,11 +190,12 @@ def run(ctx):
     raw += answers.gen_cases(ctx, 45 if quick else 1000, (2, 5), (1, 6), [True], ties=0.3, q_per=0, consts=0.12)
     jobs, metas = [], []
     for c in raw:
+        hintq = c.get("_hintq") or []
         c = {k: v for k, v in c.items() if not k.startswith("_")}
         conds = [(b, a) for _, b, a in c["base"]]
         if not c.get("queries_fixed"):
             hints = [a for _, _b, a in c.get("queries", [])] + [b for _, b, _a in c.get("queries", [])]
-            qs, inst = instances(rng, conds, c["n"], hints)
+            qs, inst = instances(rng, conds, c["n"], hints, hintq)
             c["queries"] = [[i + 1, b, a] for i, (b, a) in enumerate(qs)]
         else:
             inst = c["inst"]
